@@ -56,14 +56,14 @@ PROPS = {
     },
     "C02": {
         "title": "Closing and reopening a store preserves exactly its contents, deletions included",
-        "rules": [k3.s2_live_vs_recovery, k4.v1_log_iterator_eof, k1.w7_recovery_read_only, k5.o1_recovery_order, k2m.p5_merge_outputs_before_unlink, k5.ghint_hint_validation, k4.v5_hint_fallback, k2m.p4_merge_per_entry_order, k2m.s7_s8_merge_sets, k3.s1_roles, k9.s15_position_tracking, k9.s16_file_names, k9.s22_one_codec, k9.p21_new_active_datafile],
-        "decides": "replaying a record performs the index effects writing it performed (tombstones remove); the sequential decoder stops cleanly exactly at end of file; recovery is read-only and creates one fresh file; files are replayed in ascending numeric id order; a merge always rotates the active file above its outputs (so later writes replay after merged copies); hint entries are admitted up to and including the end of the data file; only a missing hint falls back to the scan; hint records mirror the re-pointed entry by role and are appended in the right output; the sequential reader reports each record's (position before, bytes consumed); data/hint file names are `<id>.….<ext>` with distinct extensions and sorted_fileids recognises exactly the data extension; one bincode configuration on both sides; new_active_datafile always switches",
+        "rules": [k3.s2_live_vs_recovery, k4.v1_log_iterator_eof, k1.w7_recovery_read_only, k5.o1_recovery_order, k2m.p5_merge_outputs_before_unlink, k5.ghint_hint_validation, k4.v5_hint_fallback, k2m.p4_merge_per_entry_order, k2m.s7_s8_merge_sets, k3.s1_roles, k9.s15_position_tracking, k9.s16_file_names, k9.s22_one_codec, k9.p21_new_active_datafile, k2.p3_publish_after_append],
+        "decides": "replaying a record performs the index effects writing it performed (tombstones remove); the sequential decoder stops cleanly exactly at end of file; recovery is read-only and creates one fresh file; files are replayed in ascending numeric id order; a merge always rotates the active file above its outputs (so later writes replay after merged copies); hint entries are admitted up to and including the end of the data file; only a missing hint falls back to the scan; hint records mirror the re-pointed entry by role and are appended in the right output; the sequential reader reports each record's (position before, bytes consumed); data/hint file names are `<id>.….<ext>` with distinct extensions and sorted_fileids recognises exactly the data extension; one bincode configuration on both sides; new_active_datafile always switches; the index changes only after the record (value or tombstone) was appended successfully — a failed delete leaves the key in place, memory and disk agree at the next open",
         "not_decided": "equality of recovered values over histories; max+1 arithmetic beyond its shape",
     },
     "C03": {
         "title": "A process crash at any instant loses no acknowledged write and corrupts nothing",
-        "rules": [k2.p1_append_flushes, k2.p3_publish_after_append, k2m.p4_merge_per_entry_order, k2m.p5_merge_outputs_before_unlink, k1.w1_file_mutation_api, controls.control("W1"), k1.w7_recovery_read_only, k4.v1_log_iterator_eof, k2m.s7_s8_merge_sets, k5.o1_recovery_order, k3.s2_live_vs_recovery, k9.s15_position_tracking, k9.s22_one_codec],
-        "decides": "order constraints that must hold on every path for every kill point to be safe: an append that returned has flushed; index/ack follow the append; merge never issues an index re-point or hint record for bytes not yet in the file, never unlinks (in ascending order) before outputs are flushed+synced; only create-exclusive+append and whole-file unlink exist; a torn tail is skipped, not fatal; hint file created only after its data file; recovery replays in ascending id order and honours tombstones; append positions come from the bytes really written (a short write is not over-counted); one codec configuration",
+        "rules": [k2.p1_append_flushes, k2.p3_publish_after_append, k2m.p4_merge_per_entry_order, k2m.p5_merge_outputs_before_unlink, k1.w1_file_mutation_api, controls.control("W1"), k1.w7_recovery_read_only, k4.v1_log_iterator_eof, k2m.s7_s8_merge_sets, k5.o1_recovery_order, k3.s2_live_vs_recovery, k9.s15_position_tracking, k9.s22_one_codec, k5.ghint_hint_validation],
+        "decides": "order constraints that must hold on every path for every kill point to be safe: an append that returned has flushed; index/ack follow the append; merge never issues an index re-point or hint record for bytes not yet in the file, never unlinks (in ascending order) before outputs are flushed+synced; only create-exclusive+append and whole-file unlink exist; a torn tail is skipped, not fatal; hint file created only after its data file; recovery replays in ascending id order and honours tombstones; append positions come from the bytes really written (a short write is not over-counted); one codec configuration; a hint entry that ends exactly at the end of its data file is admitted (the last record of every completed merge output)",
         "not_decided": "that these order constraints are sufficient; enumeration of crash points as executions",
     },
     "C04": {
@@ -74,14 +74,14 @@ PROPS = {
     },
     "C05": {
         "title": "Compaction never changes what any key reads, now or after a restart",
-        "rules": [k2m.p4_merge_per_entry_order, k3.s1_roles, k2m.s7_s8_merge_sets, k2m.p5_merge_outputs_before_unlink, k2m.t1_tombstone_conservation, k5.ghint_hint_validation, k3.s2_live_vs_recovery, k3.s5_trigger_threshold_roles, k5.o1_recovery_order, k4.v5_hint_fallback, k5.e2_merge_errors_abort, k9.s14_reader_cache_keying, k9.p21_new_active_datafile, k9.s16_file_names],
-        "decides": "merge re-points only to copied+flushed bytes with roles intact and hint mirroring the entry; hint/data ids paired; copy set = removed set; sources outlive synced outputs; active file rotated above outputs; hint admission boundary includes equality; T1: deletion markers conserved across the unlink (known finding on this tree); selection compares statistics with thresholds (not triggers); recovery order and hint fallback; merge aborts on the first failed disk operation; LogDir::copy copies (len, pos) of the file id asked for, from cached and fresh readers alike; new_active_datafile always switches (also when nothing was written to the current file); data and hint names differ",
+        "rules": [k2m.p4_merge_per_entry_order, k3.s1_roles, k2m.s7_s8_merge_sets, k2m.p5_merge_outputs_before_unlink, k2m.t1_tombstone_conservation, k5.ghint_hint_validation, k3.s2_live_vs_recovery, k3.s5_trigger_threshold_roles, k5.o1_recovery_order, k4.v5_hint_fallback, k5.e2_merge_errors_abort, k9.s14_reader_cache_keying, k9.p21_new_active_datafile, k9.s16_file_names, k1.w1_file_mutation_api, controls.control("W1")],
+        "decides": "merge re-points only to copied+flushed bytes with roles intact and hint mirroring the entry; hint/data ids paired; copy set = removed set; sources outlive synced outputs; active file rotated above outputs; hint admission boundary includes equality; T1: deletion markers conserved across the unlink (known finding on this tree); selection compares statistics with thresholds (not triggers); recovery order and hint fallback; merge aborts on the first failed disk operation; LogDir::copy copies (len, pos) of the file id asked for, from cached and fresh readers alike; new_active_datafile always switches (also when nothing was written to the current file); data and hint names differ; merge outputs are created exclusively (create_new): a retried merge can never append to the leftovers of a failed one",
         "not_decided": "value equality before/after as behaviour; which files a threshold setting selects at run time (T1 quantifies over all subsets)",
     },
     "C06": {
         "title": "Over the network SET/GET/DEL answer exactly as the map model, in order",
-        "rules": [k2s.p11_command_application, k2s.p12_handler_loop, k4.v2_parse_frame, k4.v6_write_frame_flushes, k3.s9_command_table, k2.p6b_pool_filled, k2.p3_publish_after_append, k2.p18_handle_delegation, k8.s9b_client_encoders, k8.v7_argument_parsers, k9.s19_value_transparency, k9.s20_client_response_mapping, k9.s18_encoder_sequence, k9.s21_forwarding, k9.b1_server_binary_lifetime, k9.s23_argument_errors_reject],
-        "decides": "one reply per applied command, after the storage call completed, none on error paths, with the prescribed variant and the stored bytes; DEL counts Ok(true); the connection loop is read→parse→apply→reply; Incomplete ⇒ read more; exactly the checked length is consumed on every path and the read buffer is never replaced; every reply is flushed unconditionally; command names matched by full equality; DEL processes every key; arguments: only bulk strings, list ends only when exhausted, GET/SET reject trailing arguments; delete reports presence from under the writer lock; client encoders use the dispatched literals; no partial writes; Ok(None) only on Incomplete; values are carried as the bytes received (Set takes its value from get_bytes, apply passes the command's own key/value, GET replies with the store's bytes); the client writes its request before reading one response and maps replies per command; the encoder emits the RESP sequence per frame kind; the KeyValueStorage impl maps set/get/del to put/get/delete; the server binary keeps the store open while serving; argument errors reject the whole command",
+        "rules": [k2s.p11_command_application, k2s.p12_handler_loop, k4.v2_parse_frame, k4.v6_write_frame_flushes, k3.s9_command_table, k2.p6b_pool_filled, k2.p3_publish_after_append, k2.p18_handle_delegation, k8.s9b_client_encoders, k8.v7_argument_parsers, k9.s19_value_transparency, k9.s20_client_response_mapping, k9.s18_encoder_sequence, k9.s21_forwarding, k9.b1_server_binary_lifetime, k9.s23_argument_errors_reject, k1.w5_permit_ops],
+        "decides": "one reply per applied command, after the storage call completed, none on error paths, with the prescribed variant and the stored bytes; DEL counts Ok(true); the connection loop is read→parse→apply→reply; Incomplete ⇒ read more; exactly the checked length is consumed on every path and the read buffer is never replaced; every reply is flushed unconditionally; command names matched by full equality; DEL processes every key; arguments: only bulk strings, list ends only when exhausted, GET/SET reject trailing arguments; delete reports presence from under the writer lock; client encoders use the dispatched literals; no partial writes; Ok(None) only on Incomplete; values are carried as the bytes received (Set takes its value from get_bytes, apply passes the command's own key/value, GET replies with the store's bytes); the client writes its request before reading one response and maps replies per command; the encoder emits the RESP sequence per frame kind; the KeyValueStorage impl maps set/get/del to put/get/delete; the server binary keeps the store open while serving; argument errors reject the whole command; a connection slot is released in Handler's Drop on every way a handler ends (errors included), so later connections are still accepted and answered",
         "not_decided": "byte-for-byte value equality and segmentation independence as observed behaviour",
     },
     "C07": {
